@@ -517,6 +517,18 @@ for cfg in ('abacus', 'stdsqrt'):
       extra_flags=['--unsigned-overflow-check'], backends=MULBE, timeout=900, native_post='native_hypot_ok')
 U('C14', 'c14.sqrt_bound', 'lem_c14_sqrt_bound', 'pre_c14_sqrtb', None, lemma=True, cxx='lem_c14_sqrt_bound($1,$2)', **INTQ)
 
+OBS_PRELUDE = """
+unsigned long vf_obs_hi[8]; unsigned long vf_obs_lo[8]; int vf_obs_n;   /* ghost: operands observed at the cut point of hypot */
+"""
+U('C14', 'c14.symmetry.cut', 'lem_c14_cut', 'pre_c14', None, lemma=True, cxx='lem_c14_cut($1,$2)',
+  prelude=OBS_PRELUDE, ghost={(HYPOT, ('after_if', 3)): 'vf_obs_hi[vf_obs_n] = uhi; vf_obs_lo[vf_obs_n] = ulo; vf_obs_n = vf_obs_n + 1;'},
+  requires_extra=['vf_obs_n == 0'],
+  ensures_extra=['vf_obs_n == 5 && vf_obs_hi[0] == vf_obs_hi[1] && vf_obs_hi[0] == vf_obs_hi[2] && vf_obs_hi[0] == vf_obs_hi[3] && vf_obs_hi[0] == vf_obs_hi[4]'
+                 ' && vf_obs_lo[0] == vf_obs_lo[1] && vf_obs_lo[0] == vf_obs_lo[2] && vf_obs_lo[0] == vf_obs_lo[3] && vf_obs_lo[0] == vf_obs_lo[4]'],
+  assigns_extra=['vf_obs_n', '__CPROVER_object_whole(vf_obs_hi)', '__CPROVER_object_whole(vf_obs_lo)'],
+  cut_check=(HYPOT, 3, ['lh', 'rh']),
+  replace=[(SQRT, 'UF', 'post_sqrt_hyp')], backends=MULBE, timeout=900, no_canary=False)
+
 
 def c14_scan_abacus(tier, seed):
     return _native.run_native('c14_hypot_scan_abacus', 'c14_hypot_scan.cc', 'abacus', [seed, 5000000 if tier == 'quick' else 200000000], label='bounded stand-in (not proved): accuracy clause of C14, abacus sqrt')
